@@ -854,4 +854,140 @@ theorem quiescent_of_nothing_pending {s : WState} (hp : s.pending = []) (ht : s.
   · simp [wstep, hp]
   · simp [wstep, ht]
 
+
+/-! ## the dispatcher's port numbers -/
+
+theorem pollLink_tableHeld {l : Link} {n : Nat} {r : WaitRes} {l' : Link} (h : pollLink l n = some (r, l')) :
+    l'.tableHeld = l.tableHeld := by
+  unfold pollLink at h
+  cases hk : l.kind <;> simp only [hk] at h <;> (repeat' split at h) <;> simp at h <;>
+    (obtain ⟨rfl, rfl⟩ := h) <;> simp [hk]
+
+def NoTableL (links : List Link) : Prop := ∀ l ∈ links, l.tableHeld = 0
+
+/-- after termination the dispatcher holds no port number -/
+def NoTable (s : WState) : Prop := s.term.isSome = true → NoTableL s.links
+
+theorem noTableL_set {links : List Link} {i : Nat} {l l' : Link} (h : NoTableL links) (hl : links[i]? = some l)
+    (ht : l'.tableHeld = l.tableHeld) : NoTableL (links.set i l') := by
+  intro x hx
+  rcases List.mem_or_eq_of_mem_set hx with hx | rfl
+  · exact h x hx
+  · rw [ht]; exact h l (List.mem_of_getElem? hl)
+
+theorem noTable_giveBack {s : WState} (o : Option Nat) (h : NoTable s) : NoTable (giveBack s o) := by
+  unfold giveBack
+  cases o with
+  | none => exact h
+  | some i =>
+    simp only
+    split
+    · rename_i l hl
+      intro ht
+      exact noTableL_set (h ht) hl rfl
+    · exact h
+
+theorem noTable_step {s s' : WState} {lab : Label} (h : NoTable s) (hs : wstep s lab = some s') : NoTable s' := by
+  cases lab with
+  | start k i need holds =>
+    simp only [wstep] at hs
+    split at hs
+    · simp at hs
+    · rename_i l hl
+      split at hs
+      · rename_i r l' hp
+        simp at hs; subst hs
+        apply noTable_giveBack
+        intro ht
+        exact noTableL_set (h ht) hl (pollLink_tableHeld hp)
+      · simp at hs; subst hs; exact h
+  | wake idx =>
+    simp only [wstep] at hs
+    split at hs
+    · simp at hs
+    · rename_i w hw
+      split at hs
+      · simp at hs
+      · split at hs
+        · simp at hs
+        · rename_i l hl
+          split at hs
+          · rename_i r l' hp
+            simp at hs; subst hs
+            apply noTable_giveBack
+            intro ht
+            exact noTableL_set (h ht) hl (pollLink_tableHeld hp)
+          · simp at hs; subst hs; exact h
+  | cancel idx =>
+    simp only [wstep] at hs
+    split at hs
+    · simp at hs
+    · simp at hs; subst hs
+      exact noTable_giveBack _ h
+  | newLink kind avail =>
+    simp only [wstep] at hs
+    simp at hs; subst hs
+    intro ht x hx
+    simp only [List.mem_append, List.mem_singleton] at hx
+    rcases hx with hx | rfl
+    · exact h ht x hx
+    · rfl
+  | feed i n | closeLink i g | endLink i | dropLink i | tableTake i | tableFree i =>
+    simp only [wstep] at hs
+    split at hs
+    · simp at hs
+    · rename_i hterm
+      split at hs
+      · split at hs
+        · simp at hs
+        · simp at hs; subst hs
+          intro ht; simp [ht] at hterm
+      · simp at hs
+  | release i =>
+    simp only [wstep] at hs
+    split at hs
+    · split at hs
+      · simp at hs
+      · simp at hs; subst hs
+        exact noTable_giveBack (some i) h
+    · simp at hs
+  | listenerDropped =>
+    simp only [wstep] at hs
+    split at hs
+    · simp at hs
+    · rename_i hterm
+      simp at hs; subst hs
+      intro ht; simp [ht] at hterm
+  | rx | fault e | stall =>
+    simp only [wstep] at hs
+    split at hs
+    · simp at hs
+    · simp at hs; subst hs; exact h
+  | tick d =>
+    simp only [wstep] at hs
+    split at hs
+    · simp at hs; subst hs; exact h
+    · split at hs
+      · simp at hs; subst hs; exact h
+      · simp at hs
+  | terminate =>
+    simp only [wstep] at hs
+    split at hs
+    · simp at hs
+    · split at hs
+      · simp at hs
+      · simp at hs; subst hs
+        intro _ x hx
+        obtain ⟨l, _, rfl⟩ := List.mem_map.mp hx
+        unfold killLink
+        split <;> rfl
+
+theorem noTable_reachable {s : WState} (h : WReachable s) : NoTable s := by
+  induction h with
+  | init s hi =>
+    intro ht
+    obtain ⟨_, _, _, _, hterm, _⟩ := hi
+    simp [hterm] at ht
+  | step s l s' _ hs ih => exact noTable_step ih hs
+
 end Remoc.Conn
